@@ -9,6 +9,7 @@ import (
 
 	gmsstrings "github.com/dolthub/go-mysql-server/internal/strings"
 	"github.com/dolthub/go-mysql-server/vh/internal/fx"
+	"github.com/dolthub/go-mysql-server/vh/internal/kf"
 	"github.com/dolthub/go-mysql-server/vh/internal/stats"
 	"pgregory.net/rapid"
 )
@@ -176,7 +177,7 @@ func TestC32(t *testing.T) {
 				switch cur.kind {
 				case kObj:
 					k := rapid.SampledFrom(keyPool).Draw(rt, "sNewKey")
-					if tameKey(k) && cur.child(k) == nil {
+					if g.legKey(k) && cur.child(k) == nil {
 						p = append(p, leg{isKey: true, key: k, quote: rapid.Bool().Draw(rt, "sq")})
 						mode = "new-member"
 					}
@@ -185,10 +186,10 @@ func TestC32(t *testing.T) {
 					mode = "past-end"
 				}
 			}
-			if p.usesLast() {
-				st.Excluded("C32-read-last") // the read side uses the resolved index instead of 'last'
+			if p.usesLast() && kf.Listed(kfReadLast) {
+				st.Excluded(kfReadLast) // the read side uses the resolved index instead of 'last'
 			}
-			ps, p2 := sqlStr(p.render(false)), sqlStr(p.render(true))
+			ps, p2 := sqlStr(p.render(false)), sqlStr(p.renderRead())
 			add("JSON_EXTRACT(JSON_SET(d,p,v),p) = v", fmt.Sprintf("JSON_EXTRACT(JSON_SET(%s, %s, %s), %s)", darg, ps, vsql, p2), wantJSON(v))
 			st.Class("set:" + mode)
 			st.Class("v:" + vk)
@@ -224,9 +225,8 @@ func TestC32(t *testing.T) {
 					}
 					st.Class("remove:cell")
 				}
-				if p.usesLast() {
-					st.Excluded("C32-read-last")
-				}
+				// (after a removal 'last' names another cell, so the read side always gets the
+				// resolved path here; the last-forms on the read side are covered by (3) and (5))
 				if len(p) > maxPath {
 					maxPath = len(p)
 				}
@@ -237,7 +237,7 @@ func TestC32(t *testing.T) {
 		}
 		// (5) JSON_ARRAY_APPEND adds exactly one element
 		{
-			v, vsql, _ := g.value("av")
+			v, vsql, avk := g.value("av")
 			p, nodes := g.walk(d, 3, "ap")
 			cur := nodes[len(nodes)-1]
 			want := &node{kind: kArr}
@@ -253,13 +253,23 @@ func TestC32(t *testing.T) {
 				}
 				st.Class("append:non-array")
 			}
-			ps, p2 := sqlStr(p.render(false)), sqlStr(p.render(true))
+			ps, p2 := sqlStr(p.render(false)), sqlStr(p.renderRead())
 			app := fmt.Sprintf("JSON_ARRAY_APPEND(%s, %s, %s)", darg, ps, vsql)
 			add("JSON_ARRAY_APPEND: the array at p is the old one plus v", fmt.Sprintf("JSON_EXTRACT(%s, %s)", app, p2), wantJSON(want))
 			add("JSON_LENGTH after JSON_ARRAY_APPEND", fmt.Sprintf("JSON_LENGTH(%s, %s)", app, p2), wantInt(int64(len(want.arr))))
 			add("JSON_LENGTH before JSON_ARRAY_APPEND", fmt.Sprintf("JSON_LENGTH(%s, %s)", darg, p2), wantInt(oldLen))
-			if p.usesLast() {
-				st.Excluded("C32-read-last")
+			// appending twice adds exactly two elements: the first v is then an element of the
+			// document the second call works on (an SQL decimal there is the region of C32-decimal-clone)
+			if avk == "decimal" && kf.Listed(kfDecimalClone) {
+				st.Excluded(kfDecimalClone)
+			} else {
+				want2 := &node{kind: kArr, arr: append(append([]*node(nil), want.arr...), v)}
+				add("JSON_ARRAY_APPEND twice: the array at p is the old one plus v, v",
+					fmt.Sprintf("JSON_EXTRACT(JSON_ARRAY_APPEND(%s, %s, %s), %s)", app, ps, vsql, p2), wantJSON(want2))
+				st.Class("append:twice")
+			}
+			if p.usesLast() && kf.Listed(kfReadLast) {
+				st.Excluded(kfReadLast)
 			}
 			if len(p) > maxPath {
 				maxPath = len(p)
@@ -369,7 +379,7 @@ func (g *gen) mutate(n *node, lbl string) {
 			case 1:
 				t += "e0"
 			}
-			if printLossy(t) || g.noHugeDouble && hugeDouble(t) {
+			if printLossy(t) && kf.Listed(kfPrintDouble) || g.noHugeDouble && hugeDouble(t) {
 				return
 			}
 			n.num = t
@@ -386,7 +396,7 @@ func TestC32Compare(t *testing.T) {
 	defer st.Flush()
 	rapid.Check(t, func(rt *rapid.T) {
 		st.Eval()
-		g := &gen{rt: rt, excluded: st.Excluded, noHugeDouble: true}
+		g := &gen{rt: rt, excluded: st.Excluded, noHugeDouble: kf.Listed(kfCmpRange)}
 		n := rapid.IntRange(3, 6).Draw(rt, "n")
 		docs := []*node{g.top(2, "d0")}
 		for len(docs) < n {
